@@ -398,16 +398,39 @@ func (b *RefillBuffer) Read(p []byte) (int, error) {
 type Conn struct {
 	R             *Reader
 	DeadlineCalls int
+	deadline      time.Time
+	expired       bool
 }
 
-func (k *Conn) Read(p []byte) (int, error) { return k.R.Read(p) }
+// Pause is called by a scenario BETWEEN two calls into the library: the next
+// bytes take their time. If a read deadline is armed on the connection at
+// that moment (the program under test never arms one; only the library can
+// have), the pause outlasts it: reads time out until a deadline is set anew.
+func (k *Conn) Pause() {
+	if !k.deadline.IsZero() {
+		k.expired = true
+		k.R.c.Count("fault.delay-outlasts-a-read-deadline-left-armed-on-the-connection")
+	}
+}
+
+func (k *Conn) Read(p []byte) (int, error) {
+	if k.expired {
+		return 0, os.ErrDeadlineExceeded
+	}
+	return k.R.Read(p)
+}
 func (k *Conn) Close() error {
 	k.R.Closed = true
 	k.R.c.Count("note.the-reader-was-closed")
 	return nil
 }
-func (k *Conn) SetDeadline(time.Time) error     { k.DeadlineCalls++; return nil }
-func (k *Conn) SetReadDeadline(time.Time) error { k.DeadlineCalls++; return nil }
+func (k *Conn) SetDeadline(t time.Time) error { return k.SetReadDeadline(t) }
+func (k *Conn) SetReadDeadline(t time.Time) error {
+	k.DeadlineCalls++
+	k.deadline, k.expired = t, false
+	k.R.c.Count("note.the-library-set-a-read-deadline-on-the-connection")
+	return nil
+}
 
 func WrapReader(c *sim.Ctx, r *Reader) (io.Reader, string) {
 	switch c.T.Pick(6, 1, 1, 1, 1, 1, 1) {
